@@ -112,6 +112,8 @@ def eval_step(desc):
     def func(X, Y, f):
         return poly(cu, f, X, Y), poly(cv, f, X, Y)
     forcing = ti.StubForcing(func=func)
+    if round(desc["x"] * 64) % 2 == 1:  # every other case: the forcing sits behind a pass-through wrapper (*args, **kwargs)
+        forcing = ti.PassThroughForcing(forcing)
     tr, st, _ = ti.make_tracker(grid, forcing, dt, desc["scheme"])
     # the particle under test comes LAST, after the other (possibly inactive) particles
     st.append(X=np.array([o[0] for o in others] + [desc["x"]]), Y=np.array([o[1] for o in others] + [desc["y"]]), Z=5.0,
